@@ -187,7 +187,8 @@ Definition a_ok (c : acase) : bool :=
   let X := input_variables (a_summ c) (a_obs c) in
   match a_impl_out c with
   | Some outs => ok_all X (a_params c) (a_impl_coef c) (a_impl_icpt c) outs
-  | None => true                      (* the property is conditional on the run finishing *)
+  | None =>                           (* a failed run is admissible only when some parameter has no usable row *)
+      match adjust_all X (a_params c) (map (fun _ => []) (a_params c)) with None => true | Some _ => false end
   end.
 
 (** * Model comparison *)
